@@ -1268,6 +1268,36 @@ def bd1(ctx, R):
                         aware = True
                 if isinstance(x, ast.Attribute) and x.attr == "final_chunk_lengths_override":
                     aware = True
+    # a final-chunk size derived from a total modulo the chunk size, with 0 read as "a full chunk", cannot tell a complete final chunk from
+    # an EMPTY one: a channel may have no values at all in a truncated final chunk (final_chunk_lengths_override.get(path, 0) == 0)
+    ambiguous = None
+    for g_ in {fr_[-1][0] for fr_ in RF} | {cfun}:
+        for x in walk_body(g_.node):
+            tst = body_ = other_ = None
+            if isinstance(x, ast.IfExp):
+                tst, body_, other_ = x.test, x.body, x.orelse
+            elif isinstance(x, ast.BoolOp) and isinstance(x.op, ast.Or) and len(x.values) == 2:
+                # (a % c) or c
+                m_, c_ = x.values
+                if isinstance(m_, ast.BinOp) and isinstance(m_.op, ast.Mod) and not isinstance(m_.left, ast.Constant) and unparse(m_.right) == unparse(c_):
+                    ambiguous = (g_, x)
+                continue
+            if tst is None or not (isinstance(tst, ast.Compare) and len(tst.ops) == 1 and isinstance(tst.ops[0], (ast.Eq, ast.NotEq))
+                                   and isinstance(tst.comparators[0], ast.Constant) and tst.comparators[0].value == 0):
+                continue
+            zero_arm, rest_arm = (body_, other_) if isinstance(tst.ops[0], ast.Eq) else (other_, body_)
+            # the tested value: a remainder itself, or a local that holds one
+            tv = tst.left
+            rems = [tv] if isinstance(tv, ast.BinOp) and isinstance(tv.op, ast.Mod) else [
+                a_.value for a_ in walk_body(g_.node) if isinstance(a_, ast.Assign) and isinstance(tv, ast.Name) and any(isinstance(t_, ast.Name) and t_.id == tv.id for t_ in a_.targets)
+                and isinstance(a_.value, ast.BinOp) and isinstance(a_.value.op, ast.Mod) and not isinstance(a_.value.left, ast.Constant)]
+            if rems and any(unparse(r_.right) == unparse(zero_arm) for r_ in rems):
+                ambiguous = (g_, x)
+    if ambiguous is not None and not any(isinstance(x, ast.Attribute) and x.attr == "final_chunk_lengths_override" for x in ast.walk(ambiguous[0].node)):
+        g_, x = ambiguous
+        R.violation("reader.TdmsReader.read_raw_data_for_channel::size of the final chunk", g_.where(x), "`%s` takes the size of the segment's final chunk from a total modulo the "
+                    "chunk size and reads a remainder of 0 as a full chunk: for a channel that has NO values in a truncated final chunk the remainder is 0 as well, so the "
+                    "window end drops the wrong number of chunks (reads past the window / 'could not broadcast' for windows that end before that chunk)" % unparse(x)[:80])
     R.check(aware, "reader.TdmsReader.read_raw_data_for_channel::truncated final chunk", cfun.where(c),
             "the chunk count dropped at the window end accounts for a shorter final chunk (segment length modulo chunk size)",
             "the number of trailing chunks to drop is computed as if every chunk were full: with a truncated final chunk one chunk too many or too "
